@@ -184,7 +184,7 @@ DecLazyF(bs, p, t, st, al, force) ==
               IF n < 0 THEN Err(p + 6, "decode", st + 3, al)
               ELSE LET s == SkipKV(bs, p + 6, bs[p], bs[p+1], n, TRUE, st + 3) IN
                    IF ~s.ok THEN [s EXCEPT !.al = al]
-                   ELSE IF ~force THEN Ok(s.p, Nil, s.st, al)
+                   ELSE IF ~force THEN Ok(s.p, [t |-> TMap, lz |-> TRUE, at |-> p, kt |-> bs[p], vt |-> bs[p+1], n |-> n], s.st, al)
                    ELSE LET f == LazyKV(bs, p + 6, bs[p], bs[p+1], n, <<>>, s.st, al) IN
                         IF ~f.ok THEN f ELSE [f EXCEPT !.p = s.p]
        [] t \in {TSet, TList} ->
@@ -193,7 +193,7 @@ DecLazyF(bs, p, t, st, al, force) ==
               IF n < 0 THEN Err(p + 5, "decode", st + 2, al)
               ELSE LET s == SkipN(bs, p + 5, bs[p], n, TRUE, st + 2) IN
                    IF ~s.ok THEN [s EXCEPT !.al = al]
-                   ELSE IF ~force THEN Ok(s.p, Nil, s.st, al)
+                   ELSE IF ~force THEN Ok(s.p, [t |-> t, lz |-> TRUE, at |-> p, et |-> bs[p], n |-> n], s.st, al)
                    ELSE LET f == LazyN(bs, p + 5, t, bs[p], n, <<>>, s.st, al) IN
                         IF ~f.ok THEN f ELSE [f EXCEPT !.p = s.p]
        [] OTHER -> Err(p, "decode", st, al)
@@ -225,6 +225,24 @@ LazyKV(bs, p, kt, vt, n, acc, st, al) ==
        ELSE LET v == DecLazy(bs, k.p, vt, k.st, k.al) IN
             IF ~v.ok THEN v
             ELSE LazyKV(bs, v.p, kt, vt, n - 1, Append(acc, [k |-> k.v, v |-> v.v]), v.st, v.al)
+
+---------------------------------------------------------------------------
+(* ForEach on a lazy container: the items are read one by one with a fresh reader (reader.ReadValue), *)
+(* i.e. scalars and struct fields eagerly, nested containers again as skip-validated placeholders.     *)
+RECURSIVE ItemsN(_, _, _, _, _), ItemsKV(_, _, _, _, _, _)
+ItemsN(bs, p, et, n, acc) ==
+  IF n = 0 THEN [ok |-> TRUE, e |-> acc, ec |-> "none"]
+  ELSE LET r == DecLazyF(bs, p, et, 0, 0, FALSE) IN
+       IF ~r.ok THEN [ok |-> FALSE, e |-> <<>>, ec |-> r.ec] ELSE ItemsN(bs, r.p, et, n - 1, Append(acc, r.v))
+ItemsKV(bs, p, kt, vt, n, acc) ==
+  IF n = 0 THEN [ok |-> TRUE, e |-> acc, ec |-> "none"]
+  ELSE LET k == DecLazyF(bs, p, kt, 0, 0, FALSE) IN
+       IF ~k.ok THEN [ok |-> FALSE, e |-> <<>>, ec |-> k.ec]
+       ELSE LET v == DecLazyF(bs, k.p, vt, 0, 0, FALSE) IN
+            IF ~v.ok THEN [ok |-> FALSE, e |-> <<>>, ec |-> v.ec]
+            ELSE ItemsKV(bs, v.p, kt, vt, n - 1, Append(acc, [k |-> k.v, v |-> v.v]))
+ForceOne(bs, ph) == IF ph.t = TMap THEN ItemsKV(bs, ph.at + 6, ph.kt, ph.vt, ph.n, <<>>)
+                    ELSE ItemsN(bs, ph.at + 5, ph.et, ph.n, <<>>)
 
 ---------------------------------------------------------------------------
 
